@@ -317,8 +317,8 @@ func ServePrincipal(w http.ResponseWriter, r *http.Request, options *ServePrinci
 }
 
 func servePrincipalPropfind(w http.ResponseWriter, r *http.Request, options *ServePrincipalOptions) error {
-	var propfind internal.PropFind
-	if err := internal.DecodeXMLRequest(r, &propfind); err != nil {
+	propfind, err := internal.DecodePropFindRequest(r)
+	if err != nil {
 		return err
 	}
 	props := map[xml.Name]internal.PropFindFunc{
@@ -339,7 +339,7 @@ func servePrincipalPropfind(w http.ResponseWriter, r *http.Request, options *Ser
 		}
 	}
 
-	resp, err := internal.NewPropFindResponse(r.URL.Path, &propfind, props)
+	resp, err := internal.NewPropFindResponse(r.URL.Path, propfind, props)
 	if err != nil {
 		return err
 	}
